@@ -32,7 +32,7 @@ def handler_tokens(fnode):
 class Decorator(object):
     """one decorator class: roles, closures, interface table"""
 
-    def __init__(self, repo, modname, ci, unroll=2):
+    def __init__(self, repo, modname, ci, unroll=2, path_index=0):
         self.repo = repo
         self.modname = modname
         self.module = repo.mod(modname)
@@ -40,6 +40,7 @@ class Decorator(object):
         self.name = ci.name
         self.qual = ci.qual
         self.unroll = unroll
+        self.path_index = path_index      # which straight-line path through __call__ this object describes (helpers with a case split fork it)
         if '__call__' not in ci.methods:
             raise AnalysisError('anchor vanished: %s.__call__' % ci.qual)
         self.call_fi = ci.methods['__call__']
@@ -92,9 +93,10 @@ class Decorator(object):
         params = {args[0]: SELF, args[1]: FN}
         outs = self.engine.run_function(fnode, {}, params=params, facts={'in_call': True})
         rets = [o for o in outs if o.kind == RETURN]
-        if len(rets) != 1:
-            raise AnalysisError('%s.__call__ has %d return paths (expected exactly one straight-line body)' % (self.qual, len(rets)))
-        out = rets[0]
+        if not rets or len(rets) > 8:
+            raise AnalysisError('%s.__call__ has %d return paths (expected a straight-line body, or a few paths through helper case splits)' % (self.qual, len(rets)))
+        self.n_paths = len(rets)
+        out = rets[min(self.path_index, len(rets) - 1)]
         self.env = out.st.env
         self.call_events = out.st.events
         self.lists = out.st.facts.get('lists', {})
@@ -231,7 +233,10 @@ def load_decorators(repo, unroll=2):
         if missing:
             raise AnalysisError('anchor vanished: decorator classes %s in %s' % (missing, m.rel))
         for ci in sorted(found, key=lambda c: c.node.lineno):
-            decs.append(Decorator(repo, modname, ci, unroll=unroll))
+            d0 = Decorator(repo, modname, ci, unroll=unroll)
+            decs.append(d0)
+            for i in range(1, d0.n_paths):
+                decs.append(Decorator(repo, modname, ci, unroll=unroll, path_index=i))
     if len(decs) < 12:
         raise AnalysisError('instance count below confirmed minimum: %d decorator classes (< 12)' % len(decs))
     return decs
